@@ -37,3 +37,35 @@ def iterq(tier, seed, params):
             ops.append(o)
         out.append("n=%d ops=%s" % (n, ";".join(ops)))
     return out
+
+
+LAYOUT_TYPES = [("u8", 1, 1, "u8"), ("u16", 2, 2, None), ("u32", 4, 4, None), ("u64", 8, 8, None), ("u128", 16, 16, None),
+                ("unit", 0, 1, "zst"), ("a3", 3, 1, None), ("h3", 6, 2, None), ("t12", 4, 2, None), ("t14", 8, 4, None),
+                ("al16", 16, 16, None), ("al32", 64, 32, None), ("z64", 0, 64, "zst"), ("z2", 0, 2, "zst"), ("packed", 5, 1, None),
+                ("b64", 64, 1, None), ("nest", 12, 4, None), ("nestz", 0, 2, None), ("opt", 8, 4, None)]
+BIG_QUICK = [2 ** 20, 2 ** 32 - 1, 10 ** 9, 2 ** 40, 2 ** 60, 2 ** 62]
+BIG_FULL = sorted(set([2 ** k for k in range(11, 63)] + [2 ** k - 1 for k in range(11, 63)] + [10 ** k for k in range(4, 19)]))
+
+
+def layout(tier, seed, params):
+    out = []
+    for (ty, s, a, big) in LAYOUT_TYPES:
+        for n in LATTICE:
+            out.append("ty=%s tsize=%d talign=%d n=%d" % (ty, s, a, n))
+        for n in BIG_QUICK:
+            if (big == "zst") or (big == "u8" and n <= 2 ** 60):
+                out.append("ty=%s tsize=%d talign=%d n=%d" % (ty, s, a, n))
+    return out
+
+
+def layout_full(tier, seed, params):
+    if tier != "thorough":
+        return []
+    out = []
+    for (ty, s, a, big) in LAYOUT_TYPES:
+        for n in list(range(0, 1026)):
+            out.append("ty=%s tsize=%d talign=%d n=%d" % (ty, s, a, n))
+        for n in BIG_FULL:
+            if (big == "zst") or (big == "u8" and n <= 2 ** 60):
+                out.append("ty=%s tsize=%d talign=%d n=%d" % (ty, s, a, n))
+    return out
